@@ -22,9 +22,11 @@ CHECKS = {
  "C08": ("model_checking", "6 C08", "State invariant ConcurrencyBound + history predicate (in-flight count at every exec entry, tickets taken inside the callback so logged intervals are contained in real ones) model-checked; barrier scenarios on the real code show c executions do run simultaneously (stuck watchdog); sequential order clause; judged by TLC."),
  "C09": ("model_checking", "6 C09", "C09_Clauses model-checked incl. the race between one worker's Record and another's StopCheck (separate actions); gated replay where all other workers are parked while the failure is handled (strict clause, confirmed with 20/100/400 ms settle pauses before it counts); noFakeSuccess on every slot; judged by TLC."),
  "C11": ("model_checking", "6 C11", "C11_Clauses model-checked with cancellation from inside any exec/fallback/post or before the run, with retry waits; gated replay with cancel and manually-expired deadline contexts; hang watchdog; judged by TLC."),
+ "C12": ("model_checking", "6 C12", "FlytPool.tla (Submit = Add + blocking send, FIFO queue of 2*workers, worker select loop, Wait, Close) model-checked over every interleaving of submitters/workers/rounds (state invariants AtMostOnce, WgExact, WaitBarrier, RoundBarrier, PoolBound; liveness Close ~> all workers exited under weak fairness); C12_Clauses (one-pass monitor over submit/submitret/taskstart/taskend/waitcall/waitret/leak events) checked on the gated-scheduler behaviours, which are replayed on the real pool (gated submitters and task bodies); random pools to 16 workers / 500 tasks / 4 submitters / 3 rounds under the race detector with plain writes read back after Wait and a goroutine-dump leak probe; judged by TLC."),
 }
 ENGINE = ["C01", "C02", "C03", "C04", "C05", "C10", "C17", "C18"]
 BATCH = ["C06", "C07", "C08", "C09", "C11"]
+POOL = ["C12"]
 
 checks = []
 for p in props:
@@ -38,7 +40,7 @@ for p in props:
         "thorough_cmd": "./check %s --tier thorough" % pid,
         "evidence_file": "/verif/evidence/%s.json" % pid,
         "replay_cmd_template": "./check replay {path}",
-        "engine": "tla-engine" if pid in ENGINE else "tla-batch" if pid in BATCH else "tla",
+        "engine": "tla-engine" if pid in ENGINE else "tla-batch" if pid in BATCH else "tla-pool" if pid in POOL else "tla",
         "level_claimed": {"category": cat, "text": text, "design_ref": "DESIGN.md section " + ref},
         "level_note": TRUST,
         "technique": "explicit TLA+ spec model-checked with TLC; TLC-generated behaviours replayed into the real code; TLA+ property predicates evaluated by TLC on histories recorded from the real code",
@@ -54,6 +56,8 @@ m = {
  "engines": [
    {"name": "tla-engine", "path": "/verif/spec/FlytEngine.tla", "serves_properties": ENGINE,
     "kind_free_text": "TLA+ operational spec of Run/Flow/function nodes + PropsEngine.tla predicates + MCEngine/TPEngine front-ends + Go harness"},
+   {"name": "tla-pool", "path": "/verif/spec/FlytPool.tla", "serves_properties": ["C12", "C08"],
+    "kind_free_text": "TLA+ operational spec of WorkerPool + PropsPool.tla monitor + MCPool/TPPool + gated Go harness under -race"},
    {"name": "tla-batch", "path": "/verif/spec/FlytBatch.tla", "serves_properties": BATCH + ["C02", "C04", "C18"],
     "kind_free_text": "TLA+ operational spec of the batch runner over the worker pool + PropsBatch.tla predicates + MCBatch/TPBatch front-ends + gating Go harness"},
  ],
